@@ -519,7 +519,8 @@ func (m *observerManager) Reset() {
 		return
 	}
 
-	for i := range m.maxEventType + 1 {
+	// Loop with int: maxEventType+1 overflows to zero for the highest event type.
+	for i := 0; i <= int(m.maxEventType); i++ {
 		if !m.hasObservers[i] {
 			continue
 		}
